@@ -1,18 +1,34 @@
 #!/bin/bash
 # Re-check every property module (and everything it depends on) with coqchk on a frozen copy of the compiled tree,
 # 6 modules at a time, and write the axiom summary to /verif/COQCHK.md.   usage: bash harness/coqchk_all.sh
+#
+# C01 is checked with Proofs/C01_Estimator admitted (-admit): that file is the Flocq/Interval error analysis of the
+# binary64 batch estimator, whose re-check by coqchk (no VM) takes hours; the full check of C01 is attempted separately
+# (harness/coqchk_c01_full.sh) and its outcome, if any, is appended from work/coqchk_C01_full.log.
 set -u
 V=/verif
 T=$V/work/coqchk_tree
 rm -rf $T; mkdir -p $T; rsync -a --exclude='.lock' $V/coq/ $T/
 cd $T
-for i in $(seq -w 1 20); do echo Elfi.Properties.C$i; done | xargs -P 6 -I{} bash -c "start=\$(date +%s); timeout 10800 coqchk -silent -o -Q . Elfi {} > $V/work/coqchk_{}.log 2>&1; echo \"{} rc=\$? \$(( \$(date +%s)-start ))s\"" > $V/work/coqchk_par.log 2>&1
+cat > $T/one.sh <<'EOS'
+#!/bin/bash
+m=$1
+start=$(date +%s)
+adm=""
+[ "$m" = Elfi.Properties.C01 ] && adm="-admit Elfi.Proofs.C01_Estimator"
+timeout 10800 coqchk -silent -o -Q . Elfi $adm $m > /verif/work/coqchk_$m.log 2>&1
+echo "$m rc=$? $(( $(date +%s)-start ))s"
+EOS
+chmod +x $T/one.sh
+for i in $(seq -w 1 20); do echo Elfi.Properties.C$i; done | xargs -P 6 -I{} $T/one.sh {} > $V/work/coqchk_par.log 2>&1
 {
   echo "# coqchk -o per property module (Coq 8.16.1), run on $(date -u +%Y-%m-%dT%H:%MZ) on a frozen copy of coq/ at /verif commit $(git -C $V rev-parse --short HEAD)"
   echo
   echo "Each module was re-checked together with everything it depends on. 'Axioms' is coqchk's context summary: it lists the"
   echo "axioms and primitives of every LOADED library, not only those a theorem uses (Print Assumptions per theorem: TRUSTED_BASE.md)."
-  echo "No module relies on type-in-type, unsafe fixpoints or assumed positivity."
+  echo "No module relies on type-in-type, unsafe fixpoints or assumed positivity.  C01 was checked with"
+  echo "-admit Elfi.Proofs.C01_Estimator (the Flocq/Interval proof of the unbounded estimator theorem; its full coqchk takes"
+  echo "hours: the outcome of the separate attempt is at the end)."
   echo
   for i in $(seq -w 1 20); do
     f=$V/work/coqchk_Elfi.Properties.C$i.log
@@ -21,6 +37,8 @@ for i in $(seq -w 1 20); do echo Elfi.Properties.C$i; done | xargs -P 6 -I{} bas
     sed -n '/^\* Axioms/,$p' $f | sed 's/^/    /'
     echo
   done
+  echo "## full coqchk of Elfi.Properties.C01 (without -admit)"
+  if [ -f $V/work/coqchk_C01_full.log ]; then sed 's/^/    /' $V/work/coqchk_C01_full.log; else echo "    not finished when this file was written"; fi
 } > $V/COQCHK.md
 grep -c "rc=0" $V/work/coqchk_par.log
 rm -rf $T
